@@ -3,6 +3,9 @@ import CLModel.Paths.Matcher
 import CLModel.Proofs.C11Sub
 import CLModel.Proofs.C11Witness
 import CLModel.Proofs.C11Sound
+import CLModel.Proofs.C11RNest
+import CLModel.Proofs.C12RSep
+import CLModel.Proofs.C12RExample
 namespace C11
 open Rx PM
 
@@ -83,5 +86,89 @@ theorem same_wildcards_witness :
 theorem two_starstar_witness :
     subOutcome "a/**/x/**/*.f" [] "b/**/y/**/*.f" [] (T "a/y/x/y/q.f") = .text (T "b/y/y/y/q.f") ∧
     subOutcome "b/**/y/**/*.f" [] "a/**/x/**/*.f" [] (T "b/y/y/y/q.f") = .text (T "a/y/y/x/q.f") := by decide +kernel
+
+/-! ### the round trip between TWO matchers with wildcards -/
+
+/-- **sub_roundtrip.**  Two matchers `a`, `b` of the restricted class `C11R.InClassN` (top-level literals, `*`, `**/`
+    or a final `**`, first occurrences of fully bound variables whose values may use further variables —
+    `{l}` = "{l10n_base}/{locale}/"; any roots) with the same wildcards (the same wildcard numbers occur on both
+    sides; the literals and the variables may differ).  Let `pa` be `a`'s pattern filled with the wildcard values
+    `vs` (variables expanded in `a`'s environment), `pb` the same for `b` (`C11R.fillN`), both fillings well
+    separated (`C11R.WellSepN`, see `C12.expand_match_star_partial` for what that asks).  Then
+      * `a.sub(b, pa) = pb` and `b.sub(a, pb) = pa`: mapping there and back returns the original path, every
+        variable being substituted with the value of the side it is expanded on;
+      * `a` matches `pa` and `b` matches `pb` (with exactly the values `vs` in the wildcard groups, see
+        `C12.expand_match_star_partial`): a file present on both sides is found on both sides.
+    Hypotheses (bundles `C11R.Fillable`, `C11R.Expandable`, each field documented there): environments of the
+    `Matcher` shape (`EnvOK`) that are dicts (distinct keys), without a key named like a wildcard group (`s<n>`)
+    and without `{android_locale}`; `re.compile` accepts both patterns (F12), neither uses `{android_locale}`, both
+    root decisions succeed (F11).
+    Forced: same wildcards (`same_wildcards_witness`), separation on BOTH sides (`roundtrip_separator_witness`),
+    at most one `**` with directories (`two_starstar_witness`).
+    Full statement (not proved, hence `_partial`): repeated variables, `{android_locale}`, variables left
+    unbound on one side (captured from the path). -/
+theorem sub_roundtrip_star_partial {a b : Matcher} {vs : Nat → Text} {namesa namesb : List Text} {rta rtb : Text}
+    (ha : C11R.Fillable vs a namesa rta) (hb : C11R.Fillable vs b namesb rtb)
+    (hea : C11R.Expandable a) (heb : C11R.Expandable b)
+    (hsame : ∀ k, k ∈ a.pattern.nodes.filterMap C11R.wildNum ↔ k ∈ b.pattern.nodes.filterMap C11R.wildNum) :
+    a.sub b (rta ++ C11R.fillN vs a.env a.pattern.nodes) = .ok (some (rtb ++ C11R.fillN vs b.env b.pattern.nodes)) ∧
+    b.sub a (rtb ++ C11R.fillN vs b.env b.pattern.nodes) = .ok (some (rta ++ C11R.fillN vs a.env a.pattern.nodes)) ∧
+    (∃ da, a.match (rta ++ C11R.fillN vs a.env a.pattern.nodes) = .ok (some da)) ∧
+    (∃ db, b.match (rtb ++ C11R.fillN vs b.env b.pattern.nodes) = .ok (some db)) := by
+  obtain ⟨rea, hrea⟩ := ha.compiles
+  obtain ⟨reb, hreb⟩ := hb.compiles
+  refine ⟨C11R.sub_fillN ha.env ha.cls hrea ha.noAndroidGroup ha.root ha.sep hb.cls (hb.goodEnv heb) hb.root heb.keys
+      heb.noWildKey (fun k h => (hsame k).mpr h),
+    C11R.sub_fillN hb.env hb.cls hreb hb.noAndroidGroup hb.root hb.sep ha.cls (ha.goodEnv hea) ha.root hea.keys
+      hea.noWildKey (fun k h => (hsame k).mp h), ?_, ?_⟩
+  · obtain ⟨g, hm, _⟩ := C11R.match_fillN ha.env ha.cls hrea ha.noAndroidGroup ha.root ha.sep
+    exact ⟨_, hm⟩
+  · obtain ⟨g, hm, _⟩ := C11R.match_fillN hb.env hb.cls hreb hb.noAndroidGroup hb.root hb.sep
+    exact ⟨_, hm⟩
+
+/-- non-vacuity of `sub_roundtrip_star_partial`: the reference pattern "browser/locales/en-US/**/*.ftl"
+    (`C11R.refMatcher`) and the l10n pattern "{l}browser/**/*.ftl" with `l` = "{l10n_base}/{locale}/", `l10n_base` =
+    "/l10n", `locale` = "de" (`C11R.wildMatcher`), values `**/` = "a/b/", `*` = "c.d", satisfy all hypotheses
+    (`C11R.refMatcher_ok`, `C11R.wildMatcher_ok`, `C11R.wild_same`); the two filled paths are
+    "browser/locales/en-US/a/b/c.d.ftl" and "/l10n/de/browser/a/b/c.d.ftl", and evaluation of the model agrees. -/
+example : matcherOf "browser/locales/en-US/**/*.ftl" [] none = .ok C11R.refMatcher ∧
+    matcherOf "{l}browser/**/*.ftl" [("l", "{l10n_base}/{locale}/"), ("l10n_base", "/l10n"), ("locale", "de")] none =
+      .ok C11R.wildMatcher ∧
+    [] ++ C11R.fillN C11R.wildVals C11R.refMatcher.env C11R.refMatcher.pattern.nodes =
+      T "browser/locales/en-US/a/b/c.d.ftl" ∧
+    [] ++ C11R.fillN C11R.wildVals C11R.wildMatcher.env C11R.wildMatcher.pattern.nodes =
+      T "/l10n/de/browser/a/b/c.d.ftl" ∧
+    subOutcome "browser/locales/en-US/**/*.ftl" []
+      "{l}browser/**/*.ftl" [("l", "{l10n_base}/{locale}/"), ("l10n_base", "/l10n"), ("locale", "de")]
+      (T "browser/locales/en-US/a/b/c.d.ftl") = .text (T "/l10n/de/browser/a/b/c.d.ftl") ∧
+    subOutcome "{l}browser/**/*.ftl" [("l", "{l10n_base}/{locale}/"), ("l10n_base", "/l10n"), ("locale", "de")]
+      "browser/locales/en-US/**/*.ftl" []
+      (T "/l10n/de/browser/a/b/c.d.ftl") = .text (T "browser/locales/en-US/a/b/c.d.ftl") :=
+  ⟨C11R.refMatcher_is, C11R.wildMatcher_is, C11R.ref_fill, C11R.wild_fill, by decide +kernel, by decide +kernel⟩
+
+/-- and the theorem applied to that pair -/
+example : C11R.refMatcher.sub C11R.wildMatcher (T "browser/locales/en-US/a/b/c.d.ftl") =
+      .ok (some (T "/l10n/de/browser/a/b/c.d.ftl")) ∧
+    C11R.wildMatcher.sub C11R.refMatcher (T "/l10n/de/browser/a/b/c.d.ftl") =
+      .ok (some (T "browser/locales/en-US/a/b/c.d.ftl")) := by
+  obtain ⟨⟨na, a1⟩, a2⟩ := C11R.refMatcher_ok
+  obtain ⟨⟨nb, b1⟩, b2⟩ := C11R.wildMatcher_ok
+  have h := sub_roundtrip_star_partial a1 b1 a2 b2 C11R.wild_same
+  rw [C11R.ref_fill, C11R.wild_fill] at h
+  exact ⟨h.1, h.2.1⟩
+
+/-- the most common real shape, a final `**` on both sides (evaluation of the model) -/
+example : subOutcome "browser/locales/en-US/**" []
+      "{l}browser/**" [("l", "{l10n_base}/{locale}/"), ("l10n_base", "/l10n"), ("locale", "de")]
+      (T "browser/locales/en-US/a/b.ftl") = .text (T "/l10n/de/browser/a/b.ftl") ∧
+    subOutcome "{l}browser/**" [("l", "{l10n_base}/{locale}/"), ("l10n_base", "/l10n"), ("locale", "de")]
+      "browser/locales/en-US/**" []
+      (T "/l10n/de/browser/a/b.ftl") = .text (T "browser/locales/en-US/a/b.ftl") := by decide +kernel
+
+/-- Separation is needed on BOTH sides: "a/b.c" is "*/*" filled with ("a", "b.c"), well separated there, but in
+    "*.*" the literal "." occurs again inside the second value; the way back gives another path. -/
+theorem roundtrip_separator_witness :
+    subOutcome "*/*" [] "*.*" [] (T "a/b.c") = .text (T "a.b.c") ∧
+    subOutcome "*.*" [] "*/*" [] (T "a.b.c") = .text (T "a.b/c") := by decide +kernel
 
 end C11
